@@ -88,10 +88,24 @@ class Gen:
         f = self.sigmod.FUNCS[r.choice(["s2", "s3", "s1"])]
         n = r.random()
         if n < 0.4:
-            return f
-        if n < 0.7:
-            return f.partial(self.value(depth + 2))
-        return f.partial(**{self.sigmod.PARAMS[f.__name__][-1]: self.value(depth + 2)})
+            g = f
+        elif n < 0.7:
+            g = f.partial(self.value(depth + 2))
+        else:
+            g = f.partial(**{self.sigmod.PARAMS[f.__name__][-1]: self.value(depth + 2)})
+        # the caller's copy of the function may carry call modifiers; they are no part of the argument's value
+        # (the key covers the reference only), so the body must receive the function without them
+        md = r.random()
+        if md < 0.15:
+            self.count("fnref+ignore_result")
+            g = g.ignore_result()
+        elif md < 0.3:
+            self.count("fnref+context_args")
+            g = g.with_context_args({"tenant": r.randint(1, 3)})
+        elif md < 0.4:
+            self.count("fnref+force_local")
+            g = g.force_local()
+        return g
 
     # python value -> Coq term of type arg
     def term(self, v):
@@ -175,6 +189,10 @@ def same_value(a, b):
     from twosigma.memento.types import MementoFunctionType
     if isinstance(a, MementoFunctionType) and isinstance(b, MementoFunctionType):
         ra, rb = a.fn_reference(), b.fn_reference()
+        # [a] is what the body received: the normalized function, free of the call modifiers of the caller's copy
+        ctx = getattr(a, "context", None)
+        if ctx is not None and (ctx.local.ignore_result or ctx.local.force_local or ctx.recursive.context_args):
+            return False
         return ra.qualified_name == rb.qualified_name and same_value(list(ra.partial_args or ()), list(rb.partial_args or ())) \
             and same_value(dict(ra.partial_kwargs or {}), dict(rb.partial_kwargs or {}))
     if type(a) is not type(b):
